@@ -428,14 +428,21 @@ class VarsManager(object):
                 value = self.bnd_dic[name].get_y2x(value)
         self.variables[name].assign(value)
         self.variables[name]._trainable = unfix
+        # tied names share one tf.Variable, which is listed once
+        listed = [
+            i
+            for i in self.trainable_vars
+            if self.variables.get(i, None) is self.variables[name]
+        ]
         if unfix:
-            if name in self.trainable_vars:
+            if listed:
                 warnings.warn("{} has been freed already!".format(name))
             else:
                 self.trainable_vars.append(name)
         else:
-            if name in self.trainable_vars:
-                self.trainable_vars.remove(name)
+            if listed:
+                for i in listed:
+                    self.trainable_vars.remove(i)
             else:
                 warnings.warn("{} has been fixed already!".format(name))
 
